@@ -128,7 +128,7 @@ def r5(run):
         for c in x.calls():
             if c.bb not in x.live_blocks():
                 continue
-            if (c.fn == C.UNBOUNDED_SEND and "xs::store::GCTask" in c.fnx) or (c.fn == C.BROADCAST_SEND and C.frame_typed(c)) or c.fn == C.REMOVE:
+            if (c.fn == C.UNBOUNDED_SEND and "xs::store::GCTask" in c.fnx) or (c.fn == C.BROADCAST_SEND and C.frame_typed(c)) or c.fn in C.removers(run.facts):
                 bad.append("%s @%s" % (c.fn.split("::")[-1], c.sp))
             if c.local and c.fn != C.GET:
                 cb = facts.body(c.fn)
